@@ -1,11 +1,14 @@
 //! Worlds: one interpreter + monitor set per primitive.
 
+pub mod event;
 pub mod mutex;
+pub mod semaphore;
+pub mod timer;
 
 use crate::common::World;
 
 pub fn all() -> Vec<&'static dyn World> {
-    vec![&mutex::MutexWorld]
+    vec![&mutex::MutexWorld, &semaphore::SemaphoreWorld, &event::EventWorld, &timer::TimerWorld]
 }
 
 pub fn by_name(name: &str) -> Option<&'static dyn World> {
